@@ -5,7 +5,7 @@ Exit status: 0 = every obligation discharged (or listed as a known finding), 1 =
 2 = UNDECIDED (lost anchor, unsupported construct, resource limit, tool crash) — never on the
 unchanged tree.
 """
-import argparse, hashlib, json, os, re, shutil, subprocess, sys, time
+import argparse, hashlib, json, os, re, shutil, signal, subprocess, sys, time
 HERE = os.path.dirname(os.path.abspath(__file__))
 ROOT = os.path.dirname(HERE)
 sys.path.insert(0, HERE)
@@ -25,8 +25,17 @@ TRUSTED = [
 def sh(cmd, cwd=None, timeout=None, env=None):
     e = dict(os.environ)
     if env: e.update(env)
-    p = subprocess.run(cmd, cwd=cwd, stdout=subprocess.PIPE, stderr=subprocess.PIPE, text=True, timeout=timeout, env=e)
-    return p.returncode, p.stdout, p.stderr
+    # own process group, so that a timeout kills the solver processes too
+    p = subprocess.Popen(cmd, cwd=cwd, stdout=subprocess.PIPE, stderr=subprocess.PIPE, text=True, env=e, start_new_session=True)
+    try:
+        so, se = p.communicate(timeout=timeout)
+    except subprocess.TimeoutExpired:
+        try: os.killpg(p.pid, signal.SIGKILL)
+        except ProcessLookupError: pass
+        try: p.communicate(timeout=30)
+        except Exception: pass
+        raise
+    return p.returncode, so, se
 
 def strip_noise(s):
     return "\n".join(l for l in s.split("\n") if "auto_activate_base" not in l and not l.startswith("WARNING: overwriting environment"))
